@@ -1,6 +1,7 @@
 package main
 
 import (
+	"context"
 	"fmt"
 	"go/types"
 	"os"
@@ -124,12 +125,23 @@ func (p *Program) verifyFunction(f *ssa.Function, ct *Contract, sweep, refute bo
 				switch cl.Kind {
 				case "ensures":
 					evs := []*SpecEval{ev}
+					var parent *Obligation
 					if len(exits) > 1 {
 						evs = exits
+						// the clause on the merged exit state is tried first: when it discharges, every exit is covered
+						n := len(vc.obls)
+						vc.oblige(st, "post", cl.Label+"@all-exits", ct.clauseProps(cl), ev.evalBool(cl.Expr), f.Pos())
+						if len(vc.obls) > n {
+							vc.obls[n].Aux = true
+							parent = vc.obls[n]
+						}
 					}
 					for _, xe := range evs {
 						n := len(vc.obls)
 						vc.oblige(xe.cur, "post", cl.Label, ct.clauseProps(cl), xe.evalBool(cl.Expr), f.Pos())
+						if len(vc.obls) > n {
+							vc.obls[n].Parent = parent
+						}
 						if cl.Expr.Kind == "binary" && cl.Expr.Name == "==>" && len(vc.obls) > n && vc.obls[n].Status == "" {
 							// "A ==> B": on an exit where A cannot hold the obligation is settled without looking at B
 							vc.obls[n].Alt = Not(xe.evalBool(cl.Expr.Args[0]))
@@ -261,12 +273,19 @@ var solvers = []solverSpec{
 	{"cvc5", func(f string, t int) []string {
 		return []string{"cvc5", "--lang=smt2", fmt.Sprintf("--tlimit=%d", t*1000), f}
 	}},
+	{"cvc5-enum", func(f string, t int) []string {
+		return []string{"cvc5", "--lang=smt2", "--enum-inst", fmt.Sprintf("--tlimit=%d", t*1000), f}
+	}},
 }
 
 func runSolver(s solverSpec, file string, timeout int) (verdict, output string, secs float64) {
+	return runSolverCtx(context.Background(), s, file, timeout)
+}
+
+func runSolverCtx(ctx context.Context, s solverSpec, file string, timeout int) (verdict, output string, secs float64) {
 	t0 := time.Now()
 	a := s.args(file, timeout)
-	cmd := exec.Command(a[0], a[1:]...)
+	cmd := exec.CommandContext(ctx, a[0], a[1:]...)
 	out, _ := cmd.CombinedOutput()
 	secs = time.Since(t0).Seconds()
 	output = string(out)
@@ -426,18 +445,31 @@ func (vc *VC) discharge(dir string, timeout int, thorough bool) {
 		jobs = append(jobs, job{o, file})
 	}
 	termMu.Unlock()
-	var wg sync.WaitGroup
 	sem := globalSem
-	for _, j := range jobs {
-		wg.Add(1)
-		go func(j job) {
-			defer wg.Done()
-			sem <- struct{}{}
-			defer func() { <-sem }()
-			solveOne(j.o, j.file, timeout, thorough)
-		}(j)
+	run := func(sel func(o *Obligation) bool, tmo int) {
+		var wg sync.WaitGroup
+		for _, j := range jobs {
+			if !sel(j.o) || j.o.Status != "" {
+				continue
+			}
+			wg.Add(1)
+			go func(j job) {
+				defer wg.Done()
+				sem <- struct{}{}
+				defer func() { <-sem }()
+				solveOne(j.o, j.file, tmo, thorough)
+			}(j)
+		}
+		wg.Wait()
 	}
-	wg.Wait()
+	// phase 1: clauses on the merged exit state (a short attempt); phase 2: everything not implied by phase 1
+	run(func(o *Obligation) bool { return o.Aux }, 3)
+	for _, j := range jobs {
+		if p := j.o.Parent; p != nil && p.Status == "discharged" && j.o.Status == "" {
+			j.o.Status, j.o.Solver, j.o.Output = "discharged", p.Solver+" (all exits at once)", "implied by "+p.Name
+		}
+	}
+	run(func(o *Obligation) bool { return !o.Aux }, timeout)
 }
 
 var globalSem = make(chan struct{}, 15)
@@ -517,15 +549,20 @@ func solveOne(o *Obligation, file string, timeout int, thorough bool) {
 		secs       float64
 	}
 	ch := make(chan res, len(solvers))
+	ctx, cancel := context.WithCancel(context.Background())
+	defer cancel()
 	for _, s := range solvers {
 		go func(s solverSpec) {
-			v, out, secs := runSolver(s, file, timeout)
+			v, out, secs := runSolverCtx(ctx, s, file, timeout)
 			ch <- res{s.name, v, out, secs}
 		}(s)
 	}
 	unsat, sat := 0, 0
 	for range solvers {
 		r := <-ch
+		if (unsat > 0 || sat > 0) && !thorough {
+			break // a definite answer is in: the others are stopped
+		}
 		o.Time += r.secs
 		log = append(log, fmt.Sprintf("%s: %s (%.2fs)", r.name, r.v, r.secs))
 		if r.v == "error" {
@@ -540,6 +577,9 @@ func solveOne(o *Obligation, file string, timeout int, thorough bool) {
 		if r.v == "sat" {
 			sat++
 			o.Solver = r.name
+		}
+		if (unsat > 0 || sat > 0) && !thorough {
+			cancel()
 		}
 	}
 	switch {
